@@ -127,7 +127,20 @@ def run(ctx, R, tier):
             continue
         b, bb = sites[0]
         problems = []
+        # a read inside a loop is fine when the reader belongs to the item the loop iterates over (one reader per item,
+        # each read once): its place derives from the value yielded by the loop's `next()`
+        per_item = False
+        item_next = None
         if b.in_loop(bb):
+            from ..facts import operand_place
+            for a in b.blocks[bb]['term']['args']:
+                rd = describe(b, a, depth=10, at=bb)
+                pl = operand_place(b, a)
+                base_defs = b.defs().get(pl['l'], []) if pl is not None else []
+                if 'std::iter::Iterator>::next(' in rd or any(d[0] == 'call' and (d[2].get('callee') or {}).get('name') in ('next', 'next_back')
+                                                                for d in base_defs):
+                    per_item = True
+        if b.in_loop(bb) and not per_item:
             problems.append('the read sits inside a loop of %s' % b.path)
         in_dec = b.path in dec
         in_osp = b.path in osp
@@ -150,6 +163,8 @@ def run(ctx, R, tier):
                 cond = describe(b, tg['op'], depth=3, at=g)
                 if cond.startswith('discr(') and 'spatial_data' in cond:
                     continue
+                if per_item and cond.startswith('discr(') and 'std::iter::Iterator>::next(' in cond:
+                    continue  # the loop's own exit test: no more items
                 if in_dec and not in_osp and any(k in cond for k in ('Shared::state', 'is_full', 'is_abandoned', 'Try>::branch')):
                     # the decoder step ends (stopped / abandoned), waits (ring full) or propagates a decoder error
                     continue
@@ -277,6 +292,25 @@ def guard(F, R):
     ok = True
     why = ''
     seen = set()
+    # combinator form: `self.raw.update().then(|| *self.raw.output_buffer()).flatten()` -- `then` runs the closure
+    # (the only reader of the buffer) exactly when update() reported a new value, and yields None otherwise
+    from ..paths import parse_term
+    from ..rules import closure_args
+    if len(prs) == 1 and not any('triple_buffer::Output::<T>::update' in d for _, d, _ in prs[0].decisions):
+        name, args = parse_term(str(prs[0].ret))
+        good = False
+        if name.endswith('::flatten') and args and len(args) == 1:
+            n2, a2 = parse_term(args[0])
+            if n2 == 'core::bool::<impl bool>::then' and a2 and len(a2) == 2 and 'triple_buffer::Output::<T>::update(' in a2[0]:
+                for bb, t in b.calls():
+                    if (callee_path(t) or '') == 'core::bool::<impl bool>::then':
+                        cl = closure_args(F, b, t)
+                        good = len(cl) == 1 and any('output_buffer' in (callee_path(tt) or '') or 'peek_output_buffer' in (callee_path(tt) or '')
+                                                    for _, tt in cl[0].calls())
+        R.check(good, 'B.C07.guard', 'CommandReader::read',
+                'CommandReader::read is %s: not `update().then(|| read the buffer).flatten()`' % str(prs[0].ret)[:160],
+                detail={'form': 'update().then(|| *buffer).flatten()'}, where=b.file)
+        return
     for p in prs:
         upd = None
         for bb, desc, lab in p.decisions:
@@ -335,8 +369,15 @@ def first(F, R):
                        '%s: remove_and_add on %s (%d) or the on_start_processing loop (%d) not found' % (fn, field, len(ra), len(it2))):
             continue
         n += 1
-        ok = all((b.in_loop(bb) if bb in direct else 'for_each' in (callee_path(b.blocks[bb]['term']) or '')) for bb in it2) \
-            and not b.in_loop(ra[0])
+        def per_item_site(bb):
+            if bb in direct:
+                return bool(b.in_loop(bb))
+            cp = callee_path(b.blocks[bb]['term']) or ''
+            if 'for_each' in cp:
+                return True
+            # a closure value invoked once per iteration of a loop (`for item in .. { f(item) }`)
+            return cp.split('::')[-1] in ('call_mut', 'call', 'call_once') and bool(b.in_loop(bb))
+        ok = all(per_item_site(bb) for bb in it2) and not b.in_loop(ra[0])
         ok = ok and any(order_ok(b, ra, [bb]) for bb in it2)
         R.check(ok, 'B.C07.first', key,
                 '%s: the storage %s is not refilled before its items receive on_start_processing (a command issued before '
